@@ -388,7 +388,14 @@ def monitor(definition, rng, all_perms_upto=0):
                        "diff": list(engine.first_difference(engine.to_json(ser), engine.to_json(g2.serialize())))})
             break
     # (iv) persistence
-    g3 = graphing.WorkflowGraph.deserialize(ser)
+    try:
+        g3 = graphing.WorkflowGraph.deserialize(ser)
+        g3.serialize()
+    except Exception as e:
+        vs.append({"what": "deserialize(serialize()) of the composed graph raised", "kind": "persist",
+                   "raised": "%s: %s" % (type(e).__name__, e)})
+        g.prev_order_changed = False
+        return vs, spec, g
     if json.dumps(g3.serialize()) != json.dumps(ser):
         vs.append({"what": "serialize -> deserialize -> serialize changes the graph", "kind": "persist",
                    "diff": list(engine.first_difference(engine.to_json(ser), engine.to_json(g3.serialize())))})
